@@ -40,14 +40,25 @@ def _aggregate_parts(rv):
     return None
 
 
+_PRIMES = (7, 13, 17, 19, 23, 29, 31, 37, 41, 43)
+
+
+def combine(parts):
+    """Tag of an aggregate built from parts (order-sensitive)."""
+    return "(+ 1000003 " + " ".join(f"(* {_PRIMES[i % len(_PRIMES)]} {p})" for i, p in enumerate(parts)) + ")"
+
+
 class Flow:
-    def __init__(self, fn, call_rules, const_rules, unknown_tag=0, extra_cells=()):
+    def __init__(self, fn, call_rules, const_rules, unknown_tag=0, extra_cells=(), store_rules=(), place_cells=(), init=None):
         """call_rules: [(regex on the full callee text, 'tag:<n>' | 'arg:<i>' | 'free')]; const_rules: [(regex on rvalue, n)]."""
         self.fn, self.call_rules, self.const_rules = fn, call_rules, const_rules
         self.free = {}      # name -> declaration
         self.notes = []     # what each free variable stands for
         self.unknown_tag = unknown_tag
         self.extra_cells = list(extra_cells)
+        self.store_rules = list(store_rules)  # [(regex on the left-hand side of a store through a projection, counter cell name)]
+        self.place_cells = list(place_cells)  # [(regex on a place text, cell name)]: memory cells for fields reached through a reference (e.g. `(*_1).0`)
+        self.init = dict(init or {})          # cell -> term at function entry (default: 0 for `@` cells, free for locals)
 
     def fresh(self, name, what):
         name = re.sub(r"[^A-Za-z0-9_]", "_", name)
@@ -59,8 +70,25 @@ class Flow:
     def disc_var(self, place):
         return self.fresh("disc_" + place, f"discriminant({place})")
 
+    def place_cell(self, place):
+        place = place.strip()
+        for rx, nm in self.place_cells:
+            if re.search(rx, place):
+                return "@" + nm
+        return None
+
     def rvalue(self, rv, env, b):
         rv = rv.strip()
+        mp = re.match(r"^(?:no_retag )?(?:copy |move |&mut |&)(\(.*\))$", rv)
+        if mp and self.place_cells:
+            pc = self.place_cell(mp.group(1))
+            if pc and pc in env:
+                return env[pc]
+        for rx, n in self.const_rules:  # job-specific readings first (they may name the `no_retag` form)
+            mm = re.search(rx, rv)
+            if mm:
+                return n(mm, env) if callable(n) else str(n)
+        rv = re.sub(r"^no_retag ", "", rv)
         if rv == "const true":
             return str(TRUE)
         if rv == "const false":
@@ -88,14 +116,57 @@ class Flow:
                     return env[k]
         return None
 
-    def encode(self):
-        """Returns (decls, asserts, cells, blocks, returns, out_term) where out_term(cell, block) is the value at the block's exit."""
-        from jobs_e3 import normal_blocks, edges, has_cycle
+    def encode(self, start="bb0", cut_loops=False):
+        """Returns (decls, asserts, cells, blocks, ends, out_term) where out_term(cell, block) is the value at the block's exit.
+        With cut_loops every back edge (found by a depth-first search from `start`) is redirected to a fresh empty pseudo block, which is
+        then one of the `ends` (self.loop_backs lists them): the encoding describes every path up to its first return to a loop header -
+        from `start` = bb0 that is the loop-free prefix plus one entry into each loop, from `start` = a loop header it is one iteration."""
+        from jobs_e3 import has_cycle
         fn = self.fn
-        blocks = normal_blocks(fn)
-        es = edges(fn, blocks)
-        if has_cycle(blocks, es):
-            raise mir.Unsupported("CFG has a cycle")
+        blocks, work = set(), [start]
+        while work:
+            b = work.pop()
+            if b in blocks or b not in fn.blocks:
+                continue
+            blocks.add(b)
+            for lab, s_ in mir.successors(fn.blocks[b].term):
+                if not lab.startswith("unwind"):
+                    work.append(s_)
+        es = []
+        for b in sorted(blocks, key=lambda x: int(x[2:])):
+            for lab, s_ in mir.successors(fn.blocks[b].term):
+                if not lab.startswith("unwind") and s_ in blocks:
+                    es.append((b, lab, s_))
+        self.loop_backs = []
+        if cut_loops:
+            adj = {}
+            for e in es:
+                adj.setdefault(e[0], []).append(e)
+            color, back = {}, []
+
+            def dfs(u):
+                color[u] = 1
+                for e in adj.get(u, []):
+                    if color.get(e[2]) == 1:
+                        back.append(e)
+                    elif e[2] not in color:
+                        dfs(e[2])
+                color[u] = 2
+            dfs(start)
+            for i, e in enumerate(back):
+                pseudo = f"bb{90000 + i}"
+                blk = mir.Block(pseudo)
+                blk.term = "loopback"
+                fn.blocks[pseudo] = blk
+                blocks.add(pseudo)
+                es[es.index(e)] = (e[0], e[1], pseudo)
+                self.loop_backs.append((pseudo, e[0], e[2]))
+        else:
+            ok_start = start == "bb0"
+            if (ok_start and has_cycle(blocks, es)) or (not ok_start):
+                if not ok_start:
+                    raise mir.Unsupported("a start block other than bb0 needs cut_loops")
+                raise mir.Unsupported("CFG has a cycle")
         order = sorted(blocks, key=lambda x: int(x[2:]))
         # cells: every local that is assigned, plus tuple fields assigned through an aggregate
         cells = set()
@@ -121,6 +192,8 @@ class Flow:
                                 cells.add(m.group(1) + c[len(m.group(2)):])
                                 changed = True
         cells.update(self.extra_cells)
+        cells.update("@" + nm for _, nm in self.store_rules)
+        cells.update("@" + nm for _, nm in self.place_cells)
         for rx, act in self.call_rules:
             for a_ in ([] if callable(act) else act.split(";")):
                 if a_.startswith("record:"):
@@ -133,14 +206,26 @@ class Flow:
         decls = [f"(declare-const on_{b} Bool)" for b in order] + [f"(declare-const {cv(c, b)} Int)" for c in cells for b in order]
         evar = {e: f"e{i}" for i, e in enumerate(es)}
         decls += [f"(declare-const {v} Bool)" for v in evar.values()]
-        asserts = ["on_bb0"] + [f"(= {cv(c, 'bb0')} 0)" for c in cells if c.startswith("@")]
+        asserts = [f"on_{start}"] + [f"(= {cv(c, start)} {self.init.get(c, 0)})" for c in cells if c.startswith("@")]
         exit_env, edge_cond = {}, {}
         for b in order:
             blk = fn.blocks[b]
             env = {c: cv(c, b) for c in cells}
+            for a_, _t in fn.args:  # arguments that are never re-assigned are the same free constant everywhere
+                if a_ not in env:
+                    env[a_] = self.fresh("arg" + a_, f"argument {a_}")
             for s in blk.stmts:
                 m = re.match(r"^(_\d+) = (.*)$", s)
                 if not m:
+                    ms = re.match(r"^(\(.*\)) = (.*)$", s)
+                    pc = self.place_cell(ms.group(1)) if ms and self.place_cells else None
+                    if pc:
+                        t = self.rvalue(ms.group(2), env, b)
+                        env[pc] = t if t is not None else self.fresh(f"u_{b}_store_{len(self.free)}", f"unknown value stored to {ms.group(1)[:40]} in {b}")
+                    for rx, nm in self.store_rules:
+                        ms = re.match(r"^(\(.*\)) = (.*)$", s)
+                        if ms and re.search(rx, ms.group(1)):
+                            env["@" + nm] = f"(+ {env['@' + nm]} 1)"
                     continue
                 lhs, rv = m.groups()
                 parts = _aggregate_parts(rv)
@@ -148,7 +233,8 @@ class Flow:
                     for i, part in enumerate(parts):
                         t = self.rvalue(part, env, b)
                         env[f"{lhs}.{i}"] = t if t is not None else self.fresh(f"u_{b}_{lhs}_{i}", f"unknown value {part} in {b}")
-                    env[lhs] = str(self.unknown_tag)
+                    # the aggregate as a whole: a linear combination of its parts (the job builds the expected value the same way, see `combine`)
+                    env[lhs] = combine([env[f"{lhs}.{i}"] for i in range(len(parts))])
                     continue
                 t = self.rvalue(rv, env, b)
                 env[lhs] = t if t is not None else self.fresh(f"u_{b}{lhs}", f"unknown rvalue `{rv[:60]}` in {b}")
@@ -234,7 +320,7 @@ class Flow:
             if len(vs) == 1:
                 return vs[0]
             return "(and (or " + " ".join(vs) + ") " + " ".join(f"(not (and {vs[i]} {vs[j]}))" for i in range(len(vs)) for j in range(i + 1, len(vs))) + ")"
-        returns = [b for b in order if fn.blocks[b].term == "return"]
+        returns = [b for b in order if fn.blocks[b].term in ("return", "loopback")]
         for b in order:
             o = [evar[e] for e in outs[b]]
             if o:
@@ -244,7 +330,7 @@ class Flow:
                 eqs = " ".join(f"(= {cv(c, e[2])} {exit_env[b][c]})" for c in cells)
                 cond = edge_cond.get(e, "")
                 asserts.append(f"(=> {evar[e]} (and on_{e[2]} {eqs} {cond}))")
-            if b != "bb0":
+            if b != start:
                 asserts.append(f"(=> on_{b} {one([evar[e] for e in ins[b]])})")
         asserts.append(one([f"on_{b}" for b in returns]))
         decls += list(self.free.values())
